@@ -50,7 +50,7 @@ func (w *watchdog) end(id int64) {
 }
 
 func runC14(c *Ctx) {
-	c.res.Rule = "every exported function on: Language values [-2^17,2^17] + int boundaries (String) and a 64-value subset x all other functions; all byte strings of length <=3 over a 12-byte alphabet incl. ill-formed UTF-8 (CheckMnemonic/IsMnemonicValid x 12 language values; MnemonicToSeed for (<=2,<=1) and (<=1,<=2) byte pairs); every 2-byte sequence as one token of an otherwise valid sentence; 0..60 list words joined by every two-block pattern of 6 separators; sizes 0,1,2^10,2^20,2^24 of 'a', U+0301, 0xFF and (<=2^20) U+0020; nil and every entropy length 0..4096; every word count of C09 with a working and a failing source. Oracle: the call returns; a recovered panic or a call exceeding a 180 s deadline is a violation. distinct_nontrivial = distinct (function, argument) cases"
+	c.res.Rule = "every exported function on: Language values [-2^17,2^17] + int boundaries (String) and a 64-value subset x all other functions; all byte strings of length <=3 over a 12-byte alphabet incl. ill-formed UTF-8 (CheckMnemonic/IsMnemonicValid x 12 language values; MnemonicToSeed for (<=2,<=1) and (<=1,<=2) byte pairs); every 2-byte sequence as one token of an otherwise valid sentence; unknown tokens of every byte length 1..100 over seven rune shapes (cut at arbitrary byte boundaries); 0..60 list words joined by every two-block pattern of 6 separators; sizes 0,1,2^10,2^20,2^24 of 'a', U+0301, 0xFF and (<=2^20) U+0020; nil and every entropy length 0..4096; every word count of C09 with a working and a failing source. Oracle: the call returns; a recovered panic or a call exceeding a 180 s deadline is a violation. distinct_nontrivial = distinct (function, argument) cases"
 	c.Assume("hang = a single call not returning within 180 s (calls cost microseconds to ~1 s)")
 	wd := &watchdog{calls: map[int64]*inflight{}}
 	stop := make(chan struct{})
@@ -116,6 +116,10 @@ func c14body(c *Ctx, guard func(key, what string, cs map[string]interface{}, f f
 	lim := 1 << 17
 	type rng struct{ lo, hi int }
 	Par(c.NCPU, func(emit func(rng)) {
+		// small ranges around zero first, so that the violations kept are the simplest ones
+		for v := -64; v <= 64; v++ {
+			emit(rng{v, v})
+		}
 		for lo := -lim; lo <= lim; lo += 4096 {
 			hi := lo + 4095
 			if hi > lim {
@@ -239,6 +243,33 @@ func c14body(c *Ctx, guard func(key, what string, cs map[string]interface{}, f f
 		guard(fmt.Sprintf("Check2:%04x", x), fmt.Sprintf("CheckMnemonic(sentence with token %x)", tok), cs, func() { _ = bip39.CheckMnemonic(s, bip39.English) })
 	})
 	c.AddScope("all 65536 two-byte tokens inside a 12-word sentence", 65536, true, "")
+
+	// 3a. unknown tokens of every byte length 1..100 made of 1-, 2-, 3-, 4-byte runes and of stray
+	// continuation bytes, at the first, a middle and the last position (error-message formatting
+	// that cuts or scans a token must cope with any boundary)
+	units := []string{"z", "\u00e9", "\u3042", "\U0001f600", "\x80", "\u3042\x80", "z\u0301"}
+	type tj struct{ u, n, pos int }
+	var ntj int64
+	Par(c.NCPU, func(emit func(tj)) {
+		for u := range units {
+			for n := 1; n <= 100; n++ {
+				for _, pos := range []int{0, 5, 11} {
+					emit(tj{u, n, pos})
+					ntj++
+				}
+			}
+		}
+	}, func(j tj) {
+		tok := strings.Repeat(units[j.u], j.n/len(units[j.u])+1)[:j.n]
+		for _, l := range []int{2, 5} {
+			t := append([]string(nil), c.M.Words(make([]byte, 16), l)...)
+			t[j.pos] = tok
+			s := strings.Join(t, " ")
+			cs := map[string]interface{}{"kind": "check", "sentence": hs(s), "lang": l, "expect": "returns"}
+			guard(fmt.Sprintf("CheckTok:%d:%d:%d:%d", j.u, j.n, j.pos, l), fmt.Sprintf("CheckMnemonic(sentence whose token %d is %d bytes of %+q)", j.pos, j.n, units[j.u]), cs, func() { _ = bip39.CheckMnemonic(s, Langs[l]) })
+		}
+	})
+	c.AddScope("unknown tokens of 1..100 bytes over 7 rune shapes x 3 positions x 2 languages", ntj, true, "")
 
 	// 3b. k list words (k = 0..60) joined by every two-block separator pattern: the first j
 	// separators are sep1, the others sep2
